@@ -3831,6 +3831,25 @@ class ScoreVariant(object):
                     getattr(prev, a) != getattr(in_force, a) for a in attrs
                 ):
                     tp_new.add_starting_object(copy(in_force))
+            # ... and so is the clef of each staff
+            if start != end:
+                in_force = {}
+                for c in start.iter_prev(Clef):
+                    in_force.setdefault(c.staff, c)
+                for c in start.iter_starting(Clef):
+                    in_force.pop(c.staff, None)
+                if in_force:
+                    tp_new = part.get_or_add_point(start.t + delta)
+                    current = {}
+                    for c in tp_new.iter_prev(Clef, eq=True):
+                        current.setdefault(c.staff, c)
+                    for staff, c in in_force.items():
+                        prev = current.get(staff)
+                        if prev is None or (
+                            (prev.sign, prev.line, prev.octave_change)
+                            != (c.sign, c.line, c.octave_change)
+                        ):
+                            tp_new.add_starting_object(copy(c))
             tp = start
             while tp != end:
                 # make a new timepoint, corresponding to tp
